@@ -142,4 +142,8 @@ theorem chanskip_eq (c : Chan) : chanskip c = skip c := by
 
 theorem skip_pos (c : Chan) : 10 ≤ skip c := by cases c <;> simp [skip]
 
+theorem wrap64_id (v : Int) (h0 : -9223372036854775808 ≤ v) (h1 : v < 9223372036854775808) : wrap64 v = v := by
+  unfold wrap64; omega
+
+
 end Nq.Lemmas.Sched
